@@ -222,7 +222,7 @@ impl World {
         let r = self.resolve(op);
         // source slots must exist before observing
         match op {
-            Op::Clone { from, .. } | Op::Take { from, .. } => self.ensure_live(*from),
+            Op::Clone { from, .. } | Op::Take { from, .. } | Op::WriteArg { from, .. } => self.ensure_live(*from),
             Op::CloneFrom { slot, from } => {
                 self.ensure_live(*from);
                 self.ensure_live(*slot);
@@ -443,6 +443,23 @@ impl World {
                 }
                 // model: the call had no effect, except that iterator-driven calls may stop between items
                 match op {
+                    Op::WriteArg { slot, .. } => {
+                        // formatting writes in pieces of unknown size: accept any prefix of the full result
+                        let old = pre_model_t.clone().unwrap_or_default();
+                        let mut probe = self.clone_model();
+                        let full = {
+                            let _ = probe.apply_model(op, &r);
+                            probe.model[*slot as usize].clone().unwrap_or_default()
+                        };
+                        let observed: Option<String> = self.slots[*slot as usize].as_ref().and_then(|s| std::str::from_utf8(s.as_bytes()).ok().map(|x| x.to_string()));
+                        match observed {
+                            Some(o) if o.starts_with(old.as_str()) && full.starts_with(o.as_str()) => self.model[*slot as usize] = Some(o),
+                            other => {
+                                f.push(Failure::new("C05.whole_items", format!("after a failed write! the target holds {other:?}, not a prefix of {full:?}")));
+                                fatal = true;
+                            }
+                        }
+                    }
                     Op::Extend { slot, .. } | Op::Write { slot, .. } => {
                         let items: Vec<String> = match op {
                             Op::Extend { it, .. } => match it.kind {
@@ -875,7 +892,7 @@ impl World {
 
         // ---- failed / panicking call leaves the target untouched (C05 / C06 / C07)
         if matches!(real, Outcome::ReserveErr | Outcome::Panic(PanicKind::Reserve, _) | Outcome::Panic(PanicKind::Index, _))
-            && !matches!(op, Op::Extend { .. } | Op::Write { .. })
+            && !matches!(op, Op::Extend { .. } | Op::Write { .. } | Op::WriteArg { .. })
         {
             if let (Some(a), Some(b)) = (pre_t.as_ref(), post_t) {
                 let clause: &'static str = if matches!(real, Outcome::Panic(PanicKind::Index, _)) {
@@ -1078,7 +1095,7 @@ impl World {
             let appendish = matches!(
                 op,
                 Op::Push { .. } | Op::PushStr { .. } | Op::Insert { .. } | Op::InsertStr { .. } | Op::AddAssign { .. } | Op::Add { .. } | Op::Write { .. } | Op::Extend { .. }
-            );
+            ) && !matches!(op, Op::WriteArg { .. });
             // "exclusively owned" is a fact about the handles that exist, not about the counter the crate keeps
             let sharers = pre.iter().flatten().filter(|o| o.kind == Kind::Heap && o.ptr == a.ptr).count();
             let owned = a.kind == Kind::Inline || (a.kind == Kind::Heap && sharers == 1);
